@@ -21,6 +21,22 @@ from .errors import ConvertError, ParseInterrupt, WrongTypeError, ConditionFaile
 from .errors import ErrorNode, SumErrorNode, ProductErrorNode, _show
 
 
+def _hashable(k: t.Any) -> bool:
+    try:
+        hash(k)
+        return True
+    except TypeError:
+        return False
+
+
+def _known_key(table: t.Any, k: t.Any) -> bool:
+    """Whether the data key `k` is in `table`. A key which can't be hashed is never a known one."""
+    try:
+        return k in table
+    except TypeError:
+        return False
+
+
 T_co = t.TypeVar('T_co', covariant=True)
 T = t.TypeVar('T')
 U = t.TypeVar('U', bound=Convertible)
@@ -432,7 +448,7 @@ class TaggedUnionConverter(UnionConverter):
                 # don't give 'tag' to variants
                 val = dict(val)
                 tag = val.pop(self.tag)
-            except KeyError:
+            except (KeyError, TypeError):  # no tag (or a mapping with keys `dict` can't hold)
                 raise ParseInterrupt()
         elif self.external is True:
             if len(val) != 1:
@@ -462,7 +478,7 @@ class TaggedUnionConverter(UnionConverter):
                 # don't give 'tag' to variants
                 val = dict(val)
                 tag = val.pop(self.tag)
-            except KeyError:
+            except (KeyError, TypeError):  # no tag (or a mapping with keys `dict` can't hold)
                 return WrongTypeError(f"mapping with key '{self.tag}' => {self.tag_expected()}", val)
         elif self.external is True:
             if len(val) != 1:
@@ -529,7 +545,7 @@ class StructConverter(Converter[T]):
         val = t.cast(t.Dict[str, t.Any], val)
         d: t.Dict[str, t.Any] = {}
         for (k, v) in val.items():
-            if k not in self.fields:
+            if not _known_key(self.fields, k):
                 raise ParseInterrupt()  # unknown field
             d[k] = self.field_converters[k].try_convert(v)
         missing = set(self.fields.keys()) - set(val.keys()) - self.opt_fields
@@ -546,12 +562,12 @@ class StructConverter(Converter[T]):
         children: t.Dict[t.Union[str, int], t.Any] = {}
         extra: t.Set[str] = set()
         for (k, v) in val.items():
-            if k not in self.fields:
-                extra.add(k)
+            if not _known_key(self.fields, k):
+                extra.add(k if _hashable(k) else _show(k))
                 continue
             if (node := self.field_converters[k].collect_errors(v)) is not None:
                 children[k] = node
-        missing = set(self.fields.keys()) - set(val.keys()) - self.opt_fields
+        missing = set(self.fields.keys()) - set(k for k in val.keys() if _known_key(self.fields, k)) - self.opt_fields
         if len(children) or len(missing) or len(extra):
             return ProductErrorNode(self.expected(), children, val, missing, extra)
         return None
